@@ -326,7 +326,9 @@ PROPS["C11"] = dict(PROPS["C01"], lean=["Gengo.Props.C11"],
                "parameter and result names and variadic flags are equal and whose referenced objects are again registered under common "
                "names - 'registered under the same name' is a bisimulation, the universes are isomorphic on their common part however the "
                "loading was split (split_and_order_irrelevant_v1/v2; hypothesis Consistent: go/types prints nodes of different shape "
-               "differently, checked per case). Requested packages are complete (Lemmas/WalkSide.lean, requested_package_is_complete, "
+               "differently, checked per case); for interfaces with methods the method tables correspond as well, name by name, with "
+               "method objects registered under one printed name in either universe (interface_methods_order_irrelevant_v2). "
+               "Requested packages are complete (Lemmas/WalkSide.lean, requested_package_is_complete, "
                "requested_packages_complete_v1): after FindTypes, any sequence of AddDirTo and the scan of one more requested package, every "
                "named type of its scope is registered with a kind, every function, variable and constant is registered in its index as a "
                "DeclarationOf object over the object of its Go type (constants with their values) - and stays so through everything "
